@@ -185,6 +185,18 @@ pub fn gen_filter_string(t: &mut Tape, cfg: &GenCfg) -> String {
     s
 }
 
+/// One time in five a list of filters gets an entry whose filter repeats an earlier one (a clone, or the same text from
+/// a fresh allocation): MQTT allows a filter to occur several times in one SUBSCRIBE / UNSUBSCRIBE, with any options.
+fn repeat_filter<T>(t: &mut Tape, topics: &mut Vec<T>, filter_of: impl Fn(&T) -> &TopicFilter, mk: impl FnOnce(&mut Tape, TopicFilter) -> T) {
+    if !topics.is_empty() && t.chance(1, 5) {
+        let src = filter_of(&topics[t.pick(topics.len())]);
+        let f = if t.flag() { src.clone() } else { TopicFilter::try_from(src.to_string()).unwrap_or_else(|_| src.clone()) };
+        let at = t.pick(topics.len() + 1);
+        let e = mk(t, f);
+        topics.insert(at, e);
+    }
+}
+
 pub fn gen_filter(t: &mut Tape, cfg: &GenCfg) -> Result<TopicFilter, GenError> {
     let s = gen_filter_string(t, cfg);
     if !crate::specpred::filter_valid(&s) {
@@ -283,6 +295,7 @@ pub fn gen_v3_of_type(t: &mut Tape, cfg: &GenCfg, typ: usize) -> Result<v3::Pack
             for _ in 0..n {
                 topics.push((gen_filter(t, cfg)?, gen_qos(t)));
             }
+            repeat_filter(t, &mut topics, |e| &e.0, |t, f| (f, gen_qos(t)));
             P::Subscribe(v3::Subscribe { pid: gen_pid(t), topics })
         }
         8 => {
@@ -298,6 +311,7 @@ pub fn gen_v3_of_type(t: &mut Tape, cfg: &GenCfg, typ: usize) -> Result<v3::Pack
             for _ in 0..n {
                 topics.push(gen_filter(t, cfg)?);
             }
+            repeat_filter(t, &mut topics, |e| e, |_, f| f);
             P::Unsubscribe(v3::Unsubscribe { pid: gen_pid(t), topics })
         }
         10 => P::Unsuback(gen_pid(t)),
@@ -698,6 +712,7 @@ pub fn gen_v5_of_type(t: &mut Tape, cfg: &GenCfg, typ: usize) -> Result<v5::Pack
             for _ in 0..n {
                 topics.push((gen_filter(t, cfg)?, gen_sub_options(t)));
             }
+            repeat_filter(t, &mut topics, |e| &e.0, |t, f| (f, gen_sub_options(t)));
             P::Subscribe(v5::Subscribe {
                 pid: gen_pid(t),
                 properties: v5::SubscribeProperties {
@@ -724,6 +739,7 @@ pub fn gen_v5_of_type(t: &mut Tape, cfg: &GenCfg, typ: usize) -> Result<v5::Pack
             for _ in 0..n {
                 topics.push(gen_filter(t, cfg)?);
             }
+            repeat_filter(t, &mut topics, |e| e, |_, f| f);
             P::Unsubscribe(v5::Unsubscribe {
                 pid: gen_pid(t),
                 properties: v5::UnsubscribeProperties { user_properties: gen_user_props(t, cfg) },
